@@ -441,7 +441,7 @@ def _work_cli(item):
 
 def _cli_phase(ctx, flags):
     fout = os.path.join(ctx.work, "cli.ndjson")
-    consts = {"MODE": '"universe"', "MAXJOBS": 0, "NRANDOM": 0, "RANDMAX": 1, "NCLI": 24 if ctx.quick else 300,
+    consts = {"MODE": '"universe"', "MAXJOBS": 0, "NRANDOM": 0, "RANDMAX": 1, "NCLI": 24 if ctx.quick else 120,
               "FixedD1": tlc.lit(flags["FixedD1"]), "FixedD2": tlc.lit(flags["FixedD2"]), "FixedD3": tlc.lit(flags["FixedD3"])}
     r = tlc.run("query/Schema.tla", cfg_text=tlc.cfg(consts, postcondition="ExportCli"), workdir=ctx.work, workers=WORKERS, seed=ctx.seed % 10**6,
                 env={"CLI_OUT": fout, "CASES_OUT": fout + ".unused"}, coverage=False, allow_violation=False)
